@@ -59,7 +59,7 @@ class Ctx:
             return os.path.join(parent, ".", base), None
         return tdir, None
 
-    def run_tool(self, name, args, san=False, heapbuf=False, timeout=TOOL_TIMEOUT, cwd=None, stdin=None):
+    def run_tool(self, name, args, san=False, heapbuf=False, timeout=TOOL_TIMEOUT, cwd=None, stdin=None, shortio=None):
         """Returns (status, stdout, stderr).  status: int exit code, or
         'signal:<n>' or 'timeout'."""
         env = {"PATH": "/usr/bin:/bin", "OVNI_CONFIG_DIR": self.build.cfgdir,
@@ -67,6 +67,10 @@ class Ctx:
                "UBSAN_OPTIONS": "print_stacktrace=1:halt_on_error=1:exitcode=78"}
         if heapbuf:
             env["OVNI_VERIF_HEAPBUF"] = "1"
+        if shortio is not None and not san:
+            # seeded short pwrite(2) transfers (aux/shortio.c), plain builds only
+            env["LD_PRELOAD"] = self.build.aux("shortio.so")
+            env["OVNI_VERIF_SHORTIO"] = str(int(shortio))
         exe = self.build.tool(name, san=san)
         try:
             p = subprocess.run([exe] + list(args), env=env, cwd=cwd, stdin=subprocess.DEVNULL,
@@ -118,6 +122,11 @@ def ihash(obj):
 
 # --------------------------------------------------------------------- workers
 _W = {}
+
+
+def plain(text):
+    """Printable ASCII only (details may quote bytes of a corrupted stream)."""
+    return "".join(ch if (32 <= ord(ch) < 127 or ch in "\n\t") else ("\\x%02x" % ord(ch) if ord(ch) < 256 else "?") for ch in text)
 
 
 def fix_environment():
@@ -303,7 +312,7 @@ def replay_file(path):
         shutil.rmtree(ctx.workroot, ignore_errors=True)
     if not r["ok"]:
         print("REPRODUCED class=%s sig=%s" % (r["vclass"], r["sig"]))
-        print(r["detail"][:3000])
+        print(plain(r["detail"][:3000]))
         print("VIOLATION property=%s replay=%s" % (rp["property"], path))
         return 1 if r["vclass"] == rp["vclass"] else 3
     print("not reproduced: property held on replay")
@@ -457,7 +466,8 @@ def run_check(pid, tier, seed, nworkers=None, max_violations=4):
     with open(os.path.join(OUTDIR, "evidence", pid + ".json"), "w") as f:
         json.dump(ev, f, indent=1, sort_keys=True)
     for l in out_lines:
-        print(l)
+        # details may quote bytes of a corrupted stream: keep stdout plain printable ASCII
+        print(plain(l))
     print("%s tier=%s seed=%d runs=%d evals=%d distinct_nontrivial=%d wall=%.1fs exit=%d" % (
         pid, tier, seed, agg["runs"], agg["evals"], distinct_nt, wall, exit_code))
     return exit_code
